@@ -86,6 +86,37 @@ fn gen_date_num(r: &mut Rng) -> f64 {
     }
 }
 
+/// RFC 2822 date-time texts: mostly valid, with every field drawn from a pool that contains the limits of what chrono can represent
+/// (years 0, 9999, 10000, 262142/262143, two-digit years), all zone spellings, second 60, and a malformed stream
+pub fn gen_rfc2822(r: &mut Rng) -> String {
+    if r.chance(1, 12) { return (*r.pick(&["garbage", "", "Tue, 1 Jul 2003", "10:52:37 +0200", "Tue, 1 Jul 2003 10:52:37", "1 Jul 2003 10:52:37 +0200 trailing", "32 Jan 2003 10:52:37 +0000", "Mon, 1 Jul 2003 10:52:37 +0200"])).to_string(); }
+    // the last day chrono can represent, at an hour where a zone offset decides whether the local time still exists
+    if r.chance(1, 12) { return format!("31 Dec 262142 {:02}:{:02}:{:02} {}", 8 + r.below(16), r.below(60), r.below(60), r.pick(&["+0000", "GMT", "-0100", "-0600", "-1200", "+0100", "-2359", "+1400"])); }
+    let dow = if r.chance(1, 2) { format!("{}, ", r.pick(&["Mon", "Tue", "Wed", "Thu", "Fri", "Sat", "Sun", "mon", "TUE"])) } else { String::new() };
+    let day = match r.below(6) { 0 => *r.pick(&[0u64, 29, 30, 31, 32, 1]), _ => 1 + r.below(28) };
+    let mon = *r.pick(&["Jan", "Feb", "Mar", "Apr", "May", "Jun", "Jul", "Aug", "Sep", "Oct", "Nov", "Dec", "jan", "DEC", "Foo"]);
+    let year = match r.below(5) { 0 => r.pick(&["0", "1", "49", "50", "69", "70", "99", "100", "999", "1969", "1970", "9999", "10000", "262142", "262143", "262144", "999999", "-1", "0000", "02024"]).to_string(), _ => format!("{}", 1900 + r.below(200)) };
+    let (h, mi, sec) = (if r.chance(1, 10) { 24 } else { r.below(24) }, if r.chance(1, 12) { 60 } else { r.below(60) }, if r.chance(1, 8) { 60 } else if r.chance(1, 12) { 61 } else { r.below(60) });
+    let time = if r.chance(1, 5) { format!("{:02}:{:02}", h, mi) } else { format!("{:02}:{:02}:{:02}", h, mi, sec) };
+    let zone = match r.below(3) { 0 => r.pick(&["+0000", "-0000", "GMT", "UT", "UTC", "Z", "EST", "EDT", "CST", "PST", "PDT", "A", "z", "+2359", "-2359", "+1400", "-1200", "+9959", "+0060", "+01:00", "0100", ""]).to_string(),
+        _ => format!("{}{:02}{:02}", if r.chance(1, 2) { '+' } else { '-' }, r.below(15), *r.pick(&[0u64, 30, 45])) };
+    let sep = if r.chance(1, 10) { "  " } else { " " };
+    let mut t = format!("{dow}{day}{sep}{mon} {year} {time}{sep}{zone}");
+    if r.chance(1, 15) { t = format!(" {t} "); }
+    if r.chance(1, 15) { t.push_str(" (comment)"); }
+    t
+}
+/// RFC 3339 date-time texts (same idea): separators T/t/space, fractions of 0-12 digits, second 60, offsets incl. Z/z and limits
+pub fn gen_rfc3339(r: &mut Rng) -> String {
+    if r.chance(1, 12) { return (*r.pick(&["garbage", "", "2024-02-29", "2024-02-29T00:00:00", "24-02-29T00:00:00Z", "2024-02-29T00:00:00Z trailing", "2024-02-30T00:00:00Z", "2024-02-29T00:00Z", "+12024-02-29T00:00:00Z"])).to_string(); }
+    let year = match r.below(4) { 0 => *r.pick(&[0u64, 1, 1969, 1970, 9999, 1600, 2000, 2100]), _ => 1900 + r.below(200) };
+    let (mo, d) = (if r.chance(1, 15) { *r.pick(&[0u64, 13]) } else { 1 + r.below(12) }, match r.below(6) { 0 => *r.pick(&[0u64, 29, 30, 31, 32]), _ => 1 + r.below(28) });
+    let (h, mi, sec) = (if r.chance(1, 10) { 24 } else { r.below(24) }, if r.chance(1, 12) { 60 } else { r.below(60) }, if r.chance(1, 8) { 60 } else { r.below(60) });
+    let frac = match r.below(4) { 0 => String::new(), 1 => format!(".{}", r.pick(&["0", "5", "999", "9995", "9999999", "123456789", "1234567891", "000000000001", "", "999999999999"])), _ => format!(".{:03}", r.below(1000)) };
+    let off = match r.below(3) { 0 => r.pick(&["Z", "z", "+00:00", "-00:00", "+23:59", "-23:59", "+24:00", "+14:00", "+0100", "+01", "", "+01:60"]).to_string(),
+        _ => format!("{}{:02}:{:02}", if r.chance(1, 2) { '+' } else { '-' }, r.below(15), *r.pick(&[0u64, 30, 45])) };
+    format!("{:04}-{:02}-{:02}{}{:02}:{:02}:{:02}{}{}", year, mo, d, r.pick(&["T", "T", "T", "t", " ", "_"]), h, mi, sec, frac, off)
+}
 pub fn gen_args(r: &mut Rng, name: &str) -> Vec<V> {
     // 1 in 8: arbitrary kinds and counts (error paths); otherwise arguments of the documented kinds
     if r.chance(1, 8) { let n = r.below(6); return (0..n).map(|_| if r.chance(1, 2) { gen_small_val(r) } else { gen_val(r, 2) }).collect(); }
@@ -130,8 +161,8 @@ pub fn gen_args(r: &mut Rng, name: &str) -> Vec<V> {
         "string_to_time" => vec![s(&match r.below(5) { 0 => r.pick(&["23:59:60", "24:00:00", "00:60:00", "1:2:3", "12:00", "", "12:00:00.5"]).to_string(), _ => format!("{:02}:{:02}:{:02}", r.below(25), r.below(61), r.below(61)) })],
         "string_to_datetime" => vec![s(&match r.below(5) { 0 => r.pick(&["2016-12-31 23:59:60", "2024-02-30 00:00:00", "2024-02-29T00:00:00", ""]).to_string(),
             _ => format!("{:04}-{:02}-{:02} {:02}:{:02}:{:02}", r.below(10000), 1 + r.below(12), 1 + r.below(29), r.below(24), r.below(60), r.below(61)) })],
-        "date_from_rfc2822" => vec![s(*r.pick(&["Tue, 1 Jul 2003 10:52:37 +0200", "garbage", "", "Wed, 18 Feb 2015 23:16:09 GMT"]))],
-        "date_from_rfc3339" => vec![s(*r.pick(&["1996-12-19T16:39:57-08:00", "garbage", "", "2024-02-29T00:00:00Z"]))],
+        "date_from_rfc2822" => vec![s(&gen_rfc2822(r))],
+        "date_from_rfc3339" => vec![s(&gen_rfc3339(r))],
         n if n.starts_with("re_") => {
             let h = s(*r.pick(&["", "abc", "aaa", "a1b22c333", "Hello World", "äbc", "foo@bar.com", "2024-01-05"]));
             let p = sp(r, &["a", "a*", "(a)(b)?", "[0-9]+", "\\d+", "(", "a{1000000}", "^", "$", "b|c", "(?P<y>\\d{4})-(\\d\\d)", "\\b", ".", "", "((((((((((a))))))))))", "[", "\\", "(?i)HELLO", "ä"]);
